@@ -3,7 +3,7 @@
    correspondence (matrix, right-hand side and post-processing captured at the linear-solver interface).
    The theorems below are the algebra: the row equations of the scaled formulations are equivalent to
    F'_A(z) s = F(z), for EVERY linear H0, J, J^T, active set, lambda > 0, rho > 0 and residual. *)
-From Verif Require Import StepSolvers StepAlgebra StepProofs.
+From Verif Require Import StepSolvers StepAlgebra StepProofs VecLemmas StepBridge.
 
 Section C14.
   Variables H0 J Jt : V -> V.
@@ -81,3 +81,46 @@ Print Assumptions C14_symmetric_iff_extended.
 Print Assumptions C14_symmetric_solves_standard.
 Print Assumptions C14_one_step_exact.
 Print Assumptions C14_first_step_agree.
+
+(* ---------------- on the lists the code builds (no abstraction left): asymmetric vs standard ---------------- *)
+(* for an ARBITRARY problem (arbitrary callbacks), point, multiplier, derivative point, active set, dt > 0,
+   rho > 0 and well-shaped data: if `sol` solves the system AsymmetricStepSolver assembles, then the (dx, dy) the
+   code computes from it solves the system StandardStepSolver assembles, whose matrix is F'_A(z) with the Hessian
+   H(x, y + rho c) + rho J^T J and whose right-hand side is F(z) *)
+Theorem C14_asymmetric_solves_standard_lists : forall (P : problem) xh yh dt rho, 0 < dt -> 0 < rho ->
+  forall act xd yd x y, wfb P rho act xd yd -> wfr P xh yh rho act x y ->
+  forall sol, length sol = (nvars P + ncons P)%nat ->
+  veq (mvec (matrix P dt rho KAsymmetric act xd yd) sol) (rhs P xh yh dt rho KAsymmetric act xd yd x y) ->
+  let '(dx, dy) := post P xh yh dt rho KAsymmetric act x y sol in
+  veq (mvec (matrix P dt rho KStandard act xd yd) (dx ++ dy)) (rhs P xh yh dt rho KStandard act xd yd x y).
+Proof.
+  intros P xh yh dt rho Hdt Hrho act xd yd x y WB WR sol Lsol Hsol.
+  exact (asymmetric_solves_standard_lists P xh yh dt rho Hdt Hrho act xd yd x y WB WR sol Lsol Hsol).
+Qed.
+
+(* the scaled residual function is lambda times the standard one (y block with the opposite sign), for the
+   same active set: the relation the algebra above starts from, proved on the list definitions *)
+Theorem C14_scaled_residual_x : forall (P : problem) xh yh dt rho, 0 < dt -> forall act x y,
+  wfr P xh yh rho act x y -> forall j, (j < nvars P)%nat ->
+  nth j (s_value_at P xh yh dt rho x y act) 0 == 1 / dt * nth j (value_at P xh yh dt rho x y act) 0.
+Proof. exact scaled_residual_x. Qed.
+Theorem C14_scaled_residual_y : forall (P : problem) xh yh dt rho, 0 < dt -> forall act x y,
+  wfr P xh yh rho act x y -> forall i, (i < ncons P)%nat ->
+  nth (nvars P + i) (s_value_at P xh yh dt rho x y act) 0
+  == - (1 / dt * nth (nvars P + i) (value_at P xh yh dt rho x y act) 0).
+Proof. exact scaled_residual_y. Qed.
+
+(* non-vacuity: f = x^2/2, c = x = 0, at x = 1, y = 0, dt = rho = 1: the asymmetric system [[2,1],[1,-1/2]] s =
+   (2, 1/2) has the solution (3/4, 1/2), and the post-processed step (3/4, 3/4) solves the standard system *)
+Definition ex14b : problem := quad_problem (mk_qspec [[1]] [0] 0 [[[0]]] [[1]] [0] [None] [None] [Some 0] [Some 0]).
+Example C14_lists_nonvacuous :
+  veqb (mvec (matrix ex14b 1 1 KAsymmetric [false] [1] [0]) [3 # 4; 1 # 2]) (rhs ex14b [1] [0] 1 1 KAsymmetric [false] [1] [0] [1] [0]) = true
+  /\ (let '(dx, dy) := post ex14b [1] [0] 1 1 KAsymmetric [false] [1] [0] [3 # 4; 1 # 2] in
+      veqb (mvec (matrix ex14b 1 1 KStandard [false] [1] [0]) (dx ++ dy)) (rhs ex14b [1] [0] 1 1 KStandard [false] [1] [0] [1] [0])) = true.
+Proof. vm_compute. split; reflexivity. Qed.
+Example C14_lists_wf : wfb ex14b 1 [false] [1] [0] /\ wfr ex14b [1] [0] 1 [false] [1] [0].
+Proof. split; constructor; try reflexivity; repeat constructor. Qed.
+
+Print Assumptions C14_asymmetric_solves_standard_lists.
+Print Assumptions C14_scaled_residual_x.
+Print Assumptions C14_scaled_residual_y.
